@@ -390,6 +390,8 @@ class Stack(object):
                 sx.check(False, "stack:server-thread-ends-abnormally:%s"
                          % n.rstrip("0123456789"))
         sx.reach("stack:all-threads-returned")
+        if max(self.ipdus.values()) > 16:
+            sx.reach("stack:sequence-numbers-wrap")
         if self.dep is not None:
             air = self.dep['air']
             chained = [f for f in air.frames if f.kind == "INF+"]
@@ -502,18 +504,19 @@ def _snep_put(sx, st, cfg, lens, limit):
                 cycles=st.cycles)
 
 
-def snep_get(sx, cfgs, len_options, accept):
+def snep_get(sx, cfgs, len_options, accept, repeat=1):
+    """repeat > 1: that many GETs over one kept-open connection"""
     cfg = pick_cfg(sx, cfgs)
     nreq, nrsp = sx.pick("lens", len_options)
     st = Stack(sx, cfg['miu_c'], cfg['miu_s'], cfg['role'],
                mac=cfg.get('mac', 'pump'))
     try:
-        return _snep_get(sx, st, cfg, nreq, nrsp, accept)
+        return _snep_get(sx, st, cfg, nreq, nrsp, accept, repeat)
     finally:
         st.close()
 
 
-def _snep_get(sx, st, cfg, nreq, nrsp, accept):
+def _snep_get(sx, st, cfg, nreq, nrsp, accept, repeat=1):
     S = st.S
     rsp = content(sx, "rsp", nrsp, 128)
     req = content(sx, "req", nreq, min(cfg['miu_s'], cfg['srv_miu']))
@@ -524,18 +527,31 @@ def _snep_get(sx, st, cfg, nreq, nrsp, accept):
 
     def client():
         c = nfc.snep.client.SnepClient(st.L['c'], acceptable)
-        try:
-            return c.get_octets(req)
-        except nfc.snep.client.SnepError as e:
-            return ("err", e.errno)
+        if repeat > 1:
+            c.connect("urn:nfc:sn:snep")
+        out = []
+        for k in range(repeat):
+            try:
+                out.append(c.get_octets(req))
+            except nfc.snep.client.SnepError as e:
+                out.append(("err", e.errno))
+        if repeat > 1:
+            c.close()
+        return out
     r = exchange(sx, st, client, cfg['lagger'], cfg['lag'],
                  b"urn:nfc:sn:nothing" if cfg['sd'] else None)
     if r[0] != 'ret':
         sx.check(False, "stack:get:client-%s" % r[0])
-    got = r[1]
-    sx.check(len(server.seen) == 1, "stack:get:handler-not-called-exactly-once")
-    sx.check(server.seen[0][0] == "get" and same(sx, server.seen[0][1], req),
-             "stack:get:handler-octets-differ")
+    sx.check(len(server.seen) == repeat,
+             "stack:get:handler-not-called-exactly-once")
+    for seen in server.seen:
+        sx.check(seen[0] == "get" and same(sx, seen[1], req),
+                 "stack:get:handler-octets-differ")
+    for got in r[1][:-1]:
+        if isinstance(got, tuple) or got is None:
+            sx.check(False, "stack:get:no-response-octets")
+        sx.check(same(sx, got, rsp), "stack:get:response-octets-differ")
+    got = r[1][-1]
     if nrsp > acceptable:
         sx.reach("stack:get:excess-data")
         sx.check(isinstance(got, tuple) and got[1] == 0xC1,
@@ -686,6 +702,36 @@ def partitions(tier):
                 role=r, lagger=lg, lag=n) for r in roles for lg, n in lags[:3]]
     add("handover", "two", cfgs=cfgs,
         options=[[[0, 0], [1, 1]], [[100, 300], [200, 130]]])
+    # ---- more than 16 I PDUs in one direction of one connection: the
+    # sequence numbers N(S)/N(R) wrap around
+    prompt = [cfg(rw=1, role=r) for r in roles]
+    add("snep_put", "wrap:rw1", cfgs=prompt, limit=None,
+        lens_options=[[18 * 128 + 40]])
+    add("snep_get", "wrap", cfgs=[cfg(rw=2, role=r) for r in roles],
+        accept=None, len_options=[[3, 17 * 128 + 70]])
+    for cr in (1, 2):
+        add("handover", "wrap:rw%d" % cr, options=[[[10, 18 * 128]]],
+            cfgs=[cfg(miu_c=248, miu_s=248, rw=cr, srv_miu=128, cli_miu=128,
+                      cli_rw=cr, role=r) for r in roles])
+    if not quick:
+        lagging = [cfg(rw=15, role=r, lagger=lg, lag=n)
+                   for r in roles for lg, n in lags[:4]]
+        add("snep_put", "wrap:rw15", cfgs=lagging, limit=None,
+            lens_options=[[33 * 128 + 9], [47 * 128 + 122]])
+        kept = [cfg(rw=rw, role=r, lagger=lg, lag=n) for rw in (1, 15)
+                for r in roles for lg, n in lags[:3]]
+        add("snep_put", "wrap:18-puts", cfgs=kept, limit=None,
+            lens_options=[[5] * 18, [3, 130, 1] * 6])
+        add("snep_get", "wrap:18-gets", cfgs=kept, accept=None, repeat=18,
+            len_options=[[3, 7], [2, 140]])
+        add("snep_get", "wrap:lag", accept=None,
+            cfgs=[cfg(rw=2, role=r, lagger=lg, lag=n) for r in roles
+                  for lg, n in lags[1:4]],
+            len_options=[[3, 20 * 128 + 1]])
+        add("handover", "wrap:lag", options=[[[10, 20 * 128]], [[2400, 30]]],
+            cfgs=[cfg(miu_c=248, miu_s=248, rw=1, srv_miu=128, cli_miu=128,
+                      cli_rw=1, role=r, lagger=lg, lag=n) for r in roles
+                  for lg, n in lags[1:4]])
     # ---- mac=dep: every LLC frame through the real NFC-DEP Initiator/Target
     # pair; link MIU 1024 / 2175 = 5 / 9 DEP frames of 251 octets per frame
     for m in (1024, 2175):
@@ -718,12 +764,13 @@ MUST_REACH = ["stack:put:delivered", "stack:put:fragmented",
               "stack:get:excess-data", "stack:get:response-fragmented",
               "stack:handover:exchanged", "stack:more-fragments-than-window",
               "stack:reader-lags", "stack:aggregated-frame",
-              "stack:service-resolved", "stack:dep-activated",
+              "stack:service-resolved", "stack:sequence-numbers-wrap",
+              "stack:dep-activated",
               "stack:dep-chained-request", "stack:dep-chained-response",
               "stack:all-threads-returned"]
 BOUNDS = {
-    "quick": "full LLCP stack: two real LogicalLinkControllers joined by a frame pump (collect -> encode -> decode -> dispatch, aggregation on), client on the initiator and on the target side; SNEP client (socket MIU 128, RW 1 - it has no parameters) against a real SnepServer with recv_buf 1, 2, 15 and link MIU 128/128, 248/248, 2175/2175, 128/248 (server socket MIU 200 below the link MIU), 2175/128: PUT of 5-7 lengths around k*MIU-6 (k<=5, more fragments than the window), two PUTs on one connection, max_acceptable_length = length-1 / length; GET with responses of 0..400 octets (up to 4 fragments into RW 1), acceptable length below the response; handover client (recv_miu 128/248, recv_buf 1, 2, 15) and HandoverServer with requests/responses of 1..6 fragments, two requests on one connection; schedules: every thread runs as soon as it is notified, or the per-connection server thread / the client lags 2 link cycles behind every notification; SNEP octets all symbolic up to 260 octets, longer messages concrete non-periodic with up to 8 symbolic octets (first, last, both sides of the fragment boundaries), handover messages concrete; mac=dep: three partitions (SNEP PUT at link MIU 1024 and 2175, handover at 2175 with client recv_miu 2175; client on initiator and on target; prompt and lagging reader) in which every LLC frame, SYMM included, passes through a real activated nfc.dep.Initiator.exchange / nfc.dep.Target.exchange pair over the lossless env.air (LR 254: 5 resp. 9 chained DEP frames per LLC frame in both directions)",
-    "thorough": "as quick with more lengths (up to 8 fragments / 5*MIU), lags of 1, 2 and 5 cycles; mac=dep with more lengths and a SNEP GET partition",
+    "quick": "full LLCP stack: two real LogicalLinkControllers joined by a frame pump (collect -> encode -> decode -> dispatch, aggregation on), client on the initiator and on the target side; SNEP client (socket MIU 128, RW 1 - it has no parameters) against a real SnepServer with recv_buf 1, 2, 15 and link MIU 128/128, 248/248, 2175/2175, 128/248 (server socket MIU 200 below the link MIU), 2175/128: PUT of 5-7 lengths around k*MIU-6 (k<=5, more fragments than the window), two PUTs on one connection, max_acceptable_length = length-1 / length; GET with responses of 0..400 octets (up to 4 fragments into RW 1), acceptable length below the response; handover client (recv_miu 128/248, recv_buf 1, 2, 15) and HandoverServer with requests/responses of 1..6 fragments, two requests on one connection; schedules: every thread runs as soon as it is notified, or the per-connection server thread / the client lags 2 link cycles behind every notification; SNEP octets all symbolic up to 260 octets, longer messages concrete non-periodic with up to 8 symbolic octets (first, last, both sides of the fragment boundaries), handover messages concrete; sequence wrap-around: one PUT of 19 fragments to a server with RW 1, one GET answer of 18 fragments into the client's RW 1, handover select messages of 18+ fragments into recv_buf 1 and 2 (prompt readers); mac=dep: three partitions (SNEP PUT at link MIU 1024 and 2175, handover at 2175 with client recv_miu 2175; client on initiator and on target; prompt and lagging reader) in which every LLC frame, SYMM included, passes through a real activated nfc.dep.Initiator.exchange / nfc.dep.Target.exchange pair over the lossless env.air (LR 254: 5 resp. 9 chained DEP frames per LLC frame in both directions)",
+    "thorough": "as quick with more lengths (up to 8 fragments / 5*MIU), lags of 1, 2 and 5 cycles; sequence wrap-around also with RW 15 and 34 / 48 fragments, 18 PUTs and 18 GETs over one kept-open connection, lagging readers; mac=dep with more lengths and a SNEP GET partition",
 }
 OUTSIDE = ["the drivers below NFC-DEP (C13) and NFC-DEP faults (loss, corruption, retransmission: C04): the frame pump and, in the mac=dep partitions, the air are lossless and strictly alternating; NFC-DEP only at 106A passive, LR 254, without DID/NAD",
            "preemption of application threads anywhere but where they block; several clients at once; more than one lagging thread",
